@@ -377,14 +377,25 @@ class CHECK(Check):
         ids = [case["names"][i] for i in case["ids"]] if case["container"] == "dataframe" else list(case["ids"])
         alpha = float(F(case["alpha"]))
         ms = len(ids)
+        # the `rcond` np.linalg.lstsq is actually called with during fit (tie of the lifted `CorrRemoverSrc.lstsqRcond`)
+        seen_rcond = []
+        real_lstsq = np.linalg.lstsq
+
+        def spy_lstsq(a, b, rcond=None, *args, **kw):
+            seen_rcond.append("none" if rcond is None else repr(float(rcond)))
+            return real_lstsq(a, b, rcond, *args, **kw)
         try:
             cr = CorrelationRemover(sensitive_feature_ids=ids, alpha=alpha)
-            ft = cr.fit_transform(X)
+            np.linalg.lstsq = spy_lstsq
+            try:
+                ft = cr.fit_transform(X)
+            finally:
+                np.linalg.lstsq = real_lstsq
             mean = np.broadcast_to(np.asarray(cr.sensitive_mean_, dtype=float), (ms,))
             out = {"ft": fl(ft), "mean": [float(v) for v in mean],
                    "mean_shape": list(np.shape(cr.sensitive_mean_)),
                    "beta": fl(np.asarray(cr.beta_, dtype=float).reshape(ms, -1)),
-                   "tr": fl(cr.transform(X)), "new": fl(cr.transform(Xn))}
+                   "tr": fl(cr.transform(X)), "new": fl(cr.transform(Xn)), "rcond": seen_rcond}
             if case["alpha"] != "1":
                 out["ft1"] = fl(CorrelationRemover(sensitive_feature_ids=ids, alpha=1.0).fit_transform(X))
             else:
@@ -414,14 +425,14 @@ class CHECK(Check):
         # theorem output_independent_of_solution on the driver: two exact solutions, same alpha = 1 output
         ls += [f"corr.transform {X} {ids} {em} {eb} 1", f"corr.transform {X} {ids} {em} {proto.mat(sp.beta_alt)} 1"]
         if "exc" in o or "crash" in o or not self._usable(o, sp):
-            return ls
+            return ls + ["corrsrc.rcond"]           # always the LAST line
         mean, beta, a = proto.lst(o["mean"]), proto.mat(o["beta"]), proto.rat(sp.alpha)
         ls += [f"corr.normal {X} {ids} {mean} {beta}", f"corr.transform {X} {ids} {mean} {beta} {a}",
                f"corr.cov {X} {ids} {mean} {beta} {a}", f"corr.transform {Xn} {ids} {mean} {beta} {a}"]
         # lifted model with the fitted state
         ls += [f"corrsrc.normal {X} {ids} {beta}", f"corrsrc.transform {X} {ids} {mean} {beta} {a}",
                f"corrsrc.transform {Xn} {ids} {mean} {beta} {a}"]
-        return ls
+        return ls + ["corrsrc.rcond"]               # always the LAST line
 
     @staticmethod
     def _usable(o, sp):
@@ -465,6 +476,24 @@ class CHECK(Check):
                 probs.append(model_problem(f"the exact least-squares beta does not solve the problem lstsq is called with in the source: {mo[7]}"))
             elif proto.p_mat(mo[8]) != to_rows(sp.out, sp.n):
                 probs.append(model_problem("lifted transform with the exact beta differs from alpha*residual + (1-alpha)*original"))
+            # the rcond the source passes to lstsq (recorded during fit) vs the lifted `lstsqRcond` the model's assumption about
+            # the lstsq result is indexed by (`CorrL.lstsqAssumed`; theorem `lifted_lstsq_untruncated` needs `none`)
+            if isinstance(o, dict) and "rcond" in o:
+                want_rc = mo[-1].strip()
+                if want_rc == "bad-op":
+                    probs.append(model_problem("driver does not know corrsrc.rcond"))
+                else:
+                    def same_rc(seen):
+                        if seen == "none" or want_rc == "none":
+                            return seen == want_rc
+                        try:
+                            return F(seen) == F(want_rc)
+                        except (ValueError, ZeroDivisionError):
+                            return False
+                    if len(o["rcond"]) != 1 or not same_rc(o["rcond"][0]):
+                        probs.append(Problem("correspondence", f"fit called np.linalg.lstsq with rcond {o['rcond']} (one call expected), the lifted "
+                                             f"source says {want_rc} (the model assumes the normal equations only for rcond = None)",
+                                             "C15.lifted_lstsq_untruncated"))
             if mo[9] == "bad-op" or [int(t) for t in proto.p_list(mo[9])] != list(case["ids"]):
                 probs.append(model_problem(f"the lifted _create_lookup / _split_X resolve the sensitive ids to {mo[9]}, their positions are {case['ids']}"))
         # ---- implementation vs property oracle ---------------------------------------
@@ -536,7 +565,7 @@ class CHECK(Check):
                 probs.append(Problem("correspondence", f"fitted state has unexpected shape: mean {o.get('mean_shape')}, beta {np.shape(o.get('beta'))}",
                                      "C15.fitted_state"))
                 return probs
-            if len(mo) != 19 or "bad-op" in mo[12:16]:
+            if len(mo) != 20 or "bad-op" in mo[12:16]:
                 return probs + [Problem("harness", f"driver rejected the fitted state: {mo[12:]}")]
             if "bad-op" in mo[16:19] or "bad-op" in mo[5:10]:
                 return probs + [model_problem(f"the model re-built from the lifted source rejects the fitted state: {mo[16:]}")]
